@@ -16,7 +16,7 @@
    PART 5: SimplePredicateVisitor.apply_logical_* (Gen/PredVisitGen.v, regenerated from queries/visitors.py). *)
 From Coq Require Import NArith List Bool.
 From V Require Import Base.Tri Model.Pred Model.NormalForm Gen.PredGen Proofs.PredProofs Proofs.NormalFormProofs.
-From V Require Import Gen.NormalFormGen Gen.PredVisitGen Proofs.NormalFormProofsG Proofs.NormalFormProofsX Proofs.NormalFormProofsS Proofs.PredProofsX Proofs.PredProofsV.
+From V Require Import Gen.NormalFormGen Gen.PredVisitGen Proofs.NormalFormProofsG Proofs.NormalFormProofsX Proofs.NormalFormProofsS Proofs.PredProofsX Proofs.PredProofsV Model.PredCheck Model.PredVisitCheck Proofs.PredProofsW.
 Import ListNotations.
 
 (* ================================= PART 1: Predicate ============================================== *)
@@ -411,6 +411,14 @@ Theorem apply_not_refuted : exists v a r r',
 Proof. exact apply_not_refuted_p. Qed.
 Print Assumptions apply_not_refuted.
 
+(* the whole visit (the regenerated helpers composed as PredicateVisitor._visit_logical_and/_or/_not composes them,
+   Model/PredVisitCheck.v): when no replaced atom occurs under a NOT, the rebuilt predicate (the original when the
+   helpers return None) has exactly the value of the original under the substituted assignment *)
+Theorem visit_sound_no_negated_replacement : forall v s p, neg_free s p ->
+  eval3 v (match visit_pred s p with Some r => r | None => p end) = eval3 (subst_val v s) p.
+Proof. exact visit_pred_sound_p. Qed.
+Print Assumptions visit_sound_no_negated_replacement.
+
 (* ================================= non-vacuity ====================================================== *)
 (* flags_ok is satisfiable with a TRUE identity flag (p.logical_and(p)), and then _impl_and really takes
    the `a is b` branch *)
@@ -466,3 +474,12 @@ Example size_bound_attained :
   let t := LBin (LBin (LAtom 0%N) true (LAtom 1%N)) false (LBin (LAtom 2%N) true (LAtom 3%N)) in
   ideal_groups true (wrap_of t) = 4 /\ option_map (@length _) (py_from_tree 10 true t) = Some 4.
 Proof. vm_compute. split; reflexivity. Qed.
+
+(* neg_free is satisfiable with a real replacement:  (x0 OR NOT x1) AND x2  with x0 := x3 *)
+Example visit_example :
+  neg_free [(0%N, [[Pos 3%N]])] [[Pos 0%N; Neg 1%N]; [Pos 2%N]]
+  /\ visit_pred [(0%N, [[Pos 3%N]])] [[Pos 0%N; Neg 1%N]; [Pos 2%N]] = Some [[Pos 3%N; Neg 1%N]; [Pos 2%N]].
+Proof.
+  split; [|vm_compute; reflexivity].
+  intros g l [<-|[<-|[]]] Hl; cbn in Hl; repeat destruct Hl as [<-|Hl]; try contradiction; cbn; auto.
+Qed.
